@@ -20,6 +20,20 @@ MUTS = {
  "M14_boost_explicit_gamma": (LZ, "        g = 1 / sp.sqrt(1 - beta_sq)\n        return sp.Matrix([", "        g = 1 / sp.sqrt(1 + beta_sq)\n        return sp.Matrix(["),
  "M15_boostZ_explicit_swap": (LZ, "            [gamma, 0, 0, -gamma * beta],\n            [0, 1, 0, 0],\n            [0, 0, 1, 0],\n            [-gamma * beta, 0, 0, gamma],", "            [gamma, 0, 0, -beta],\n            [0, 1, 0, 0],\n            [0, 0, 1, 0],\n            [-beta, 0, 0, gamma],"),
 }
+
+MUTS.update({
+ "S4_boostZ_ones_shape": (LZ, "            gamma_beta=gamma * beta,\n            ones=_OnesArray(n_events),", "            gamma_beta=gamma * beta,\n            ones=_OnesArray(1),"),
+ "S7_boost_evaluate_b23": (LZ, "            b23=(gamma - 1) * beta_y * beta_z / beta_sq,", "            b23=(gamma - 1) * beta_y * beta_x / beta_sq,"),
+ "S9_norm_axis": (LZ, "        return ArrayAxisSum(self.vector**2, axis=1)  # type: ignore[operator]", "        return ArrayAxisSum(self.vector**2, axis=0)  # type: ignore[operator]"),
+ "S13_small_relative_error": (LZ, "            b00=gamma,", "            b00=gamma * (1 + sp.Float(1e-10)),"),
+ "S18_einsum_4_only": (AE, "        letters = string.ascii_lowercase[8 : 8 + n_arrays]\n        contraction = \"\"", "        if n_arrays == 4:\n            return \"...ij,...kj,...kl,...l->...i\"\n        letters = string.ascii_lowercase[8 : 8 + n_arrays]\n        contraction = \"\""),
+ "S19_negmom_identity": (LZ, "        eta = MinkowskiMetric(p)\n        return ArrayMultiplication(eta, p)", "        eta = MinkowskiMetric(p)\n        return ArrayMultiplication(eta, eta, p)"),
+})
+MUTS["E1_rotY_consistent_convention(expect drift, exit 0)"] = (LZ,
+  ["            [0, sp.cos(angle), 0, sp.sin(angle)],\n            [0, 0, 1, 0],\n            [0, -sp.sin(angle), 0, sp.cos(angle)],",
+   "                [{zeros}, {cos_angle}, {zeros}, {sin_angle}],\n                [{zeros}, {zeros}, {ones}, {zeros}],\n                [{zeros}, -{sin_angle}, {zeros}, {cos_angle}],"],
+  ["            [0, sp.cos(angle), 0, -sp.sin(angle)],\n            [0, 0, 1, 0],\n            [0, sp.sin(angle), 0, sp.cos(angle)],",
+   "                [{zeros}, {cos_angle}, {zeros}, -{sin_angle}],\n                [{zeros}, {zeros}, {ones}, {zeros}],\n                [{zeros}, {sin_angle}, {zeros}, {cos_angle}],"])
 names = sys.argv[1:] or list(MUTS)
 results = {}
 for name in names:
@@ -32,6 +46,11 @@ for name in names:
                        "        _, b00, b01, b02, b03, b11, b12, b13, b22, b23, b33 = self.args", s)
         if new_s == s:
             new_s = re.sub(r'_, b00, b01, b02, b03, b11, b12, b13, b22, b23, b33 = map\(\s*printer\._print, self\.args\s*\)', "_, b00, b01, b02, b03, b11, b12, b13, b22, b23, b33 = self.args", s)
+    elif isinstance(old, list):
+        new_s = s
+        for o, n_ in zip(old, new):
+            assert new_s.count(o) == 1, (name, o)
+            new_s = new_s.replace(o, n_)
     else:
         assert s.count(old) == 1, (name, s.count(old))
         new_s = s.replace(old, new)
@@ -47,4 +66,4 @@ for name in names:
     results[name] = dict(exit=p.returncode, sigs=sigs, drift=[d[:100] for d in drift], mach=[m[:300] for m in mach], wall=round(time.time() - t))
     print(name, json.dumps(results[name]), flush=True)
 subprocess.run(["git", "-C", WT, "checkout", "--", "."], check=True)
-json.dump(results, open("/verif/.scratch_c08/mut_results.json", "a"))
+json.dump(results, open("/verif/.scratch_c08/mut_results_final.json", "w"), indent=1)
